@@ -116,6 +116,13 @@ func runWitness(m witnessMeta, prop, repo string) witnessResult {
 	}
 	sort.Strings(res.Fired)
 	switch m.Expect {
+	case "miss":
+		// a documented limit of the technique: a breaking change the structural rules cannot see. Recorded so that the
+		// limit stays visible; if a later rule catches it the entry should be promoted to "fire".
+		res.Outcome = "ok"
+		if len(fired) > 0 {
+			res.Detail = "documented miss is now detected: promote to expect=fire"
+		}
 	case "silent":
 		if len(fired) == 0 {
 			res.Outcome = "ok"
@@ -224,11 +231,13 @@ func thorough(p *Program, pr *Property, findings []Finding, res *RunResult, extr
 	extra["obligations_deep_bounds"] = len(deep.Obs)
 	// (d) liveness self-test
 	wr := runWitnesses(pr.ID, repo)
-	fired, silent, stale := 0, 0, 0
+	fired, silent, stale, misses := 0, 0, 0, 0
 	for _, w := range wr {
 		switch {
 		case w.Outcome == "ok" && w.Expect == "silent":
 			silent++
+		case w.Outcome == "ok" && w.Expect == "miss":
+			misses++
 		case w.Outcome == "ok":
 			fired++
 		case w.Outcome == "stale":
@@ -243,6 +252,7 @@ func thorough(p *Program, pr *Property, findings []Finding, res *RunResult, extr
 	extra["witnesses_fired"] = fired
 	extra["refactors_silent"] = silent
 	extra["witnesses_stale"] = stale
+	extra["documented_misses"] = misses
 	extra["witnesses"] = wr
 }
 
